@@ -370,3 +370,87 @@ PLAN["C11"] = dict(
             "property allows either neighbour within one rounding error)",
     assumptions=COMMON_ASSUME[:1] + ["T -> size_t conversion of NaN, infinity, values <= -1 or >= 2^64 is flagged as undefined behaviour (UB-class violation)"],
     jobs=DIST_JOBS + only(ITERATION_JOBS, lambda j: j["cfg"].get("dist", 0) != 0 and "quick" in j["tiers"]))
+
+
+def I(kind, label, tiers=Q, **kw):
+    d = dict(route="I", kind=kind, label=label, harness="route_i:" + kind, cfg={}, tiers=tiers)
+    d.update(kw)
+    return d
+
+
+PLAN["C16"] = dict(
+    level="proof", engine="route-I",
+    technique="LLVM IR of the real functions -> SMT-LIB2 (own translator, bit-vector and wrap-around integer encodings), induction step over the "
+              "rank decided by z3 / cvc5 for all 64-bit values",
+    functions=["hep::discard_before", "hep::discard_after", "documented share q + (rank < total % world) (the sub_calls expression of the drivers; "
+               "that the drivers use this expression is checked for small sizes in C04's harness)"],
+    bounds={"quick": "none on total / rank / world beyond 64-bit machine integers (world >= 1, rank < world); per query cap 60 s",
+            "thorough": "same, cap 600 s"},
+    outside="products usage * before(...) exceeding 2^64 in the drivers",
+    assumptions=["division by zero excluded (world >= 1)", "clang -O1 IR of the wrappers is the code under test (translator validated against the g++ build on 8 vectors)"],
+    trusted_base=["clang++ 14 (IR)", "ir/ir2smt.py (validated per run against the g++ build)", "z3 4.8.12 / z3 5.1.0 / cvc5 1.0.3"],
+    level_text="induction step over the rank for unbounded (64-bit) total, world, rank: proves tiling for every world size",
+    jobs=[I("split", "split:all-64-bit")],
+)
+
+# ---------------------------------------------------------------------------------------------
+import os as _os
+HARNESS_FLAGS["h_mpi"] = ["-I" + _os.path.join(_os.path.dirname(_os.path.abspath(__file__)), "sym", "mpi_stub")]
+
+
+def mpi(ob, alg, **kw):
+    c = dict(ob=ob, alg=alg)
+    c.update(kw)
+    return c
+
+
+MPI_EQ = ["mpi.ranks_evaluate_exactly", "mpi.every_rank_returns", "mpi.rank_shares_follow", "mpi.all_ranks_execute_the_same"]
+MPI_JOBS = [
+    S("h_mpi", mpi(0, 0, P=1, n=2, tc=1), MPI_EQ),
+    S("h_mpi", mpi(0, 0, P=2, n=2, tc=1), MPI_EQ),
+    S("h_mpi", mpi(0, 0, P=3, n=2, tc=1), MPI_EQ),
+    S("h_mpi", mpi(0, 0, P=3, n=2, tc=4), MPI_EQ),
+    S("h_mpi", mpi(0, 0, P=3, n=2, tc=3), MPI_EQ),
+    S("h_mpi", mpi(0, 0, P=4, n=1, tc=5), MPI_EQ),
+    S("h_mpi@64", mpi(0, 0, P=2, n=2, tc=1), MPI_EQ),
+    S("h_mpi@24", mpi(0, 0, P=3, n=1, tc=3), MPI_EQ),
+    S("h_mpi@64", mpi(0, 2, P=2, n=1, tc=1, fk=1), MPI_EQ),
+    S("h_mpi", mpi(0, 0, P=2, n=2, tc=2, dist=1, fk=1), MPI_EQ),
+    S("h_mpi", mpi(0, 1, P=2, n=2, tc=0, fk=1), MPI_EQ),
+    S("h_mpi", mpi(0, 1, P=3, n=1, tc=2, fk=1), MPI_EQ),
+    S("h_mpi", mpi(0, 1, P=2, n=2, tc=0, fk=1, user=1), MPI_EQ),
+    S("h_mpi", mpi(0, 2, P=2, n=2, tc=0, fk=1), MPI_EQ),
+    S("h_mpi", mpi(0, 2, P=3, n=1, tc=2, fk=1, user=1), MPI_EQ),
+    S("h_mpi", mpi(1, 0, P=2, n=2, tc=3, fk=2, t0=1), ["mpi.stops_like_the_serial_run"]),
+    S("h_mpi", mpi(1, 1, P=2, n=2, tc=0, fk=2, t0=1), ["mpi.stops_like_the_serial_run"]),
+    S("h_mpi", mpi(1, 2, P=2, n=2, tc=0, fk=2, t0=1), ["mpi.stops_like_the_serial_run"]),
+    S("h_mpi", mpi(2, 0, P=2, n=1, tc=3), ["mpi.only_rank_zero_prints"]),
+    S("h_mpi", mpi(2, 2, P=2, n=1, tc=1), ["mpi.only_rank_zero_prints"]),
+    # thorough
+    S("h_mpi", mpi(0, 0, P=4, n=3, tc=1), MPI_EQ, tiers=T),
+    S("h_mpi", mpi(0, 0, P=4, n=2, tc=5, fk=5), MPI_EQ, tiers=T, split=8),
+    S("h_mpi", mpi(0, 1, P=2, n=2, tc=1, fk=1), MPI_EQ, tiers=T, split=12),
+    S("h_mpi", mpi(0, 1, P=3, n=2, tc=2, fk=1, user=1), MPI_EQ, tiers=T, split=12),
+    S("h_mpi", mpi(0, 2, P=2, n=2, tc=2, fk=1), MPI_EQ, tiers=T, split=8),
+    S("h_mpi", mpi(0, 2, P=4, n=1, tc=5, fk=1, user=1), MPI_EQ, tiers=T, split=12),
+    S("h_mpi", mpi(1, 0, P=2, n=2, tc=3, fk=2), ["mpi.stops_like_the_serial_run"], tiers=T, split=12, timeout_ms=600000),
+    S("h_mpi", mpi(2, 1, P=2, n=1, tc=1), ["mpi.only_rank_zero_prints"], tiers=T),
+]
+PLAN["C04"] = dict(
+    functions=["hep::mpi_plain", "hep::mpi_vegas", "hep::mpi_multi_channel", "hep::allreduce_result", "hep::mpi_callback<Checkpoint>",
+               "hep::discard_before", "hep::discard_after", "hep::random_number_usage", "hep::mpi_datatype"] + DRIVER_FUNCS,
+    bounds={"quick": "world size P<=3, 1-2 iterations, total calls per iteration in {0..4} (incl. calls < P and calls not divisible by P), d=1, B=2, C=2; "
+                     "all random numbers / integrand values / grids / weights symbolic; serial run and all ranks on the same symbolic stream",
+            "thorough": "P<=4, up to 3 iterations, 5 calls"},
+    outside="larger P (the split itself is proved for all P in C16); real mpirun; arrival and reduction order inside a collective (the shim sums in rank "
+            "order; in exact reals the order does not matter); std engines (the stub engine counts positions; draws per canonical number: C10)",
+    assumptions=DRIVER_ASSUME + ["MPI shim: ranks are coroutines switched at MPI_Allreduce; MPI_Allreduce(MPI_IN_PLACE, SUM) adds element-wise over the ranks and "
+                                 "gives every rank the result; a rank returning while another waits in a collective is reported as a hang"],
+    jobs=MPI_JOBS)
+for _p in ("C12", "C19", "C20", "C16"):
+    pass
+PLAN["C12"]["jobs"] = PLAN["C12"]["jobs"] + only(MPI_JOBS, lambda j: j["cfg"]["ob"] in (0, 1) and "quick" in j["tiers"] and j["cfg"].get("P") == 2)
+PLAN["C19"]["jobs"] = PLAN["C19"]["jobs"] + only(MPI_JOBS, lambda j: j["cfg"]["ob"] == 0 and j["cfg"]["alg"] in (1, 2) and "quick" in j["tiers"])
+PLAN["C20"]["jobs"] = PLAN["C20"]["jobs"] + only(MPI_JOBS, lambda j: j["cfg"]["ob"] == 2)
+PLAN["C16"]["jobs"] = PLAN["C16"]["jobs"] + only(MPI_JOBS, lambda j: j["cfg"]["ob"] == 0 and j["cfg"]["alg"] == 0 and "quick" in j["tiers"])
+PLAN["C16"]["level"] = "proof"
